@@ -35,6 +35,8 @@ struct RcptState {
   int chan = -1;
   int attempts = 0; bool inflight = false; char final_report = 0;   // 'K', 'D' (incl. expired Z), 0 = none yet
   bool marked = false;       // a 'D' byte was written over its record
+  bool attempted_in_pass = false;
+  bool awaiting_mark = false; // reported K/D; the daemon's next mark write for this message/channel must cover this record
   std::string reason;
   int k_reports = 0;
   bool attempted_after_final = false;
@@ -47,6 +49,8 @@ struct MsgState {
   long birth = 0;            // mtime of info/N
   long pass_started[2] = {0, 0}; long earliest_next[2] = {0, 0};   // C15: time the current/last pass began, earliest allowed next pass
   bool had_defer[2] = {false, false};
+  bool pass_eof[2] = {false, false};         // the daemon has read end-of-file of the channel file in the current pass
+  bool term_open_pass[2] = {false, false};   // TERM arrived while this channel's pass had unread recipients (known finding C15)
   bool preprocessed = false;
 };
 
@@ -125,7 +129,7 @@ struct DaemonScenario : Scenario {
     w.run_until_blocked(cleanpid);   // its start-up is independent of everything else: no scheduling choice needed
     std::map<int, int> sf; sf[0] = lg; sf[1] = lc_w; sf[2] = lr_r; sf[3] = rc_w; sf[4] = rr_r; sf[5] = qc_w; sf[6] = cq_r;
     sendpid = w.spawn("/var/qmail/bin/qmail-send", {"qmail-send"}, sf, UID_QMAILS, GID_QMAIL, "/");
-    term_sent = false; w.cur = sendpid;
+    term_sent = false; w.cur = sendpid; clamp_checked = false;
     w.counters["daemon_starts"]++;
   }
   int start_injector(World &w, const MsgSpec &m) {
@@ -230,7 +234,7 @@ struct DaemonScenario : Scenario {
       if (r->final_report && !machine_crashed && !daemon_killed) { w.violation("C04:retry-after-final-report", who + ": this recipient was already reported " + std::string(1, r->final_report) + " and no crash happened"); return; }
     }
     if (M("C15")) check_schedule_on_command(w, *m, d);
-    r->attempts++; r->inflight = true;
+    r->attempts++; r->inflight = true; r->attempted_in_pass = true;
     if (d.sender != expected_sender(*m, *r) && M("C10")) w.violation("C10:sender-field:" + m->sender, who + ": sender field is [" + d.sender + "], documented [" + expected_sender(*m, *r) + "]");
   }
   std::string expected_sender(const MsgState &m, const RcptState &r) {
@@ -245,9 +249,11 @@ struct DaemonScenario : Scenario {
     int c = d.chan; long now = w.k.clock;
     if (m.pass_started[c] == 0 || now > m.pass_started[c]) {
       // a new pass for (message, channel) begins now
-      if (m.had_defer[c] && m.earliest_next[c] && now < m.earliest_next[c] && !alarm_since[c] && !restarted_since(m, c))
+      if (m.had_defer[c] && m.earliest_next[c] && now < m.earliest_next[c] && !alarm_since[c] && m.term_open_pass[c])
+        w.soft_violation("C15:retried-too-early:after-TERM-during-open-pass", "message " + std::to_string(m.num) + " chan " + std::to_string(c) + ": TERM arrived while its pass was still open (recipients not yet read), so the job was never closed and pqfinish did not persist the retry time; after the clean restart the deferred recipient is retried at " + std::to_string(now) + ", earlier than its back-off time " + std::to_string(m.earliest_next[c]) + "; history:" + history);
+      else if (m.had_defer[c] && m.earliest_next[c] && now < m.earliest_next[c] && !alarm_since[c] && !restarted_since(m, c))
         w.violation("C15:retried-too-early", "message " + std::to_string(m.num) + " chan " + std::to_string(c) + " retried at " + std::to_string(now) + ", earlier than its back-off time " + std::to_string(m.earliest_next[c]) + " (birth " + std::to_string(m.birth) + ")");
-      m.pass_started[c] = now; m.had_defer[c] = false;
+      m.pass_started[c] = now; m.had_defer[c] = false; m.term_open_pass[c] = false; m.pass_eof[c] = false; for (auto &r : m.rc) if (r.chan == c) r.attempted_in_pass = false;
       long age = now > m.birth ? now - m.birth : 0; long n = isqrt(age) + (c ? 20 : 10);
       m.earliest_next[c] = m.birth + n * n;
       w.counters["passes_started"]++;
@@ -266,9 +272,9 @@ struct DaemonScenario : Scenario {
     if (rc) {
       rc->inflight = false;
       bool dying = (d.started > m->birth + lifetime);
-      if (verdict == 'K') { rc->final_report = 'K'; rc->k_reports++; }
-      else if (verdict == 'D') { rc->final_report = 'D'; rc->reason = text; }
-      else if (verdict == 'Z') { if (dying) { rc->final_report = 'D'; rc->reason = text; w.counters["expired_deferrals"]++; } else if (m) m->had_defer[d.chan] = true; }
+      if (verdict == 'K') { rc->final_report = 'K'; rc->k_reports++; rc->awaiting_mark = true; }
+      else if (verdict == 'D') { rc->final_report = 'D'; rc->reason = text; rc->awaiting_mark = true; }
+      else if (verdict == 'Z') { if (dying) { rc->final_report = 'D'; rc->reason = text; rc->awaiting_mark = true; w.counters["expired_deferrals"]++; } else if (m) m->had_defer[d.chan] = true; }
       else if (m) m->had_defer[d.chan] = true;   // garbage is a deferral
     }
     w.counters[std::string("reports_") + (verdict == 'K' || verdict == 'Z' || verdict == 'D' ? std::string(1, verdict) : "garbage")]++;
@@ -289,6 +295,7 @@ struct DaemonScenario : Scenario {
       if (st.op == VK_UNLINK && st.ret == 0) on_send_unlink(w, st);
       if (st.op == VK_OPEN && st.ret >= 0 && (st.a[0] & O_CREAT) && st.path.compare(0, 5, "info/") == 0) { long n = atol(st.path.c_str() + st.path.rfind('/') + 1); MsgState *m = find_msg(n); if (m) m->birth = w.k.clock; }
       if (st.op == VK_STAT && st.ret == 0 && st.path.compare(0, 5, "mess/") == 0) { Inode *mi = w.k.I(st.ino); if (mi) last_atime[atol(st.path.c_str() + st.path.rfind('/') + 1)] = mi->atime; }
+      if (st.op == VK_READ && st.kind == K_FILE && st.ret == 0) { for (auto &kv : ledger) for (int c = 0; c < 2; c++) { Inode *f = w.k.file(QmailEnv::qpath(c ? "remote" : "local", kv.first, true)); if (f && f->ino == st.ino) kv.second.pass_eof[c] = true; } }
       if (st.op == VK_SELECT) on_select(w, p, st);
       else if (st.op != VK_TIME) last_was_zero_select = false;
     }
@@ -313,10 +320,21 @@ struct DaemonScenario : Scenario {
         RcptState *r = find_rcpt(kv.second, addr, c);
         if (f->data[i] == 'D' && r && !r->marked) {
           r->marked = true; hit = true; w.counters["marks_written"]++;
+          if (M("C15") && r->final_report == 0 && r->attempts > 0 && !machine_crashed && !daemon_killed)
+            w.violation("C15:deferral-treated-as-permanent", "recipient " + addr + " of message " + std::to_string(kv.first) + " (age " + std::to_string(w.k.clock - kv.second.birth) + " s, queue lifetime " + std::to_string(lifetime) + " s) got only temporary failures but was marked done: a deferral of a message that has not expired was treated as permanent");
           if (M("C03") && r->final_report != 'K' && r->final_report != 'D')
             w.violation("C03:marked-done-without-final-report", "recipient " + addr + " of message " + std::to_string(kv.first) + " was marked done (D) although its last report was not success or permanent failure");
         }
         i = j + 1;
+      }
+      if (M("C04") || M("C03")) {
+        // every recipient whose attempt was reported K or D must find its *own* record marked once the daemon has written the mark
+        for (auto &r : kv.second.rc) if (r.chan == c && r.awaiting_mark) {
+          r.awaiting_mark = false;
+          size_t i2 = 0; bool ok = false;
+          while (i2 < f->data.size()) { size_t j2 = f->data.find('\0', i2); if (j2 == std::string::npos) break; if (f->data.compare(i2 + 1, j2 - i2 - 1, r.routed) == 0 && f->data[i2] == 'D') ok = true; i2 = j2 + 1; }
+          if (!ok) { w.violation("C04:mark-misplaced", "recipient " + r.addr + " of message " + std::to_string(kv.first) + " was reported " + std::string(1, r.final_report) + " and a completion mark was written, but its own record is still not marked (the mark landed elsewhere): it would be attempted again"); return; }
+        }
       }
       if (!hit && M("C03")) w.violation("C03:stray-mark", "a D byte was written into " + std::string(c ? "remote/" : "local/") + std::to_string(kv.first) + " at a place that is not the start of an unfinished record");
       return;
@@ -373,7 +391,19 @@ struct DaemonScenario : Scenario {
     if (!i || i->data != "F" + m.sender + std::string(1, '\0')) w.violation("C10:info-sender", "info/" + std::to_string(m.num) + " does not hold the envelope sender");
     w.counters["partitions_checked"]++;
   }
+  // C04: "startup clamps to the byte sent by the spawner": the daemon's own status line shows the limits it uses
+  bool clamp_checked = false;
+  void check_clamp(World &w) {
+    if (clamp_checked || !logsink) return;
+    size_t p = logsink->data.find("status: local 0/"); if (p == std::string::npos) return;
+    size_t e = logsink->data.find('\n', p); if (e == std::string::npos) return;
+    int l = -1, r = -1; sscanf(logsink->data.c_str() + p, "status: local 0/%d remote 0/%d", &l, &r);
+    clamp_checked = true; w.counters["clamp_checks"]++;
+    int wl = std::min(conc_l, announce), wr = std::min(conc_r, announce);
+    if (M("C04") && (l != wl || r != wr)) w.violation("C04:concurrency-clamp", "configured concurrency " + std::to_string(conc_l) + "/" + std::to_string(conc_r) + ", spawners announced " + std::to_string(announce) + ": qmail-send uses limits " + std::to_string(l) + "/" + std::to_string(r) + ", documented min(configured, announced) = " + std::to_string(wl) + "/" + std::to_string(wr));
+  }
   void on_select(World &w, Proc &p, const Step &st) {
+    check_clamp(w);
     (void) p;
     long tmo = st.a[1];
     if (st.ret == 0 && tmo == 0) {
@@ -407,7 +437,7 @@ struct DaemonScenario : Scenario {
   void after_machine_crash(World &w) override {
     machine_crashed = true; w.counters["machine_crashes"]++; history += " CRASH";
     sendpid = cleanpid = 0; inflight.clear(); injectors.clear(); cmd[0].reset(); cmd[1].reset(); rep[0].reset(); rep[1].reset();
-    for (auto &kv : ledger) { for (auto &r : kv.second.rc) r.inflight = false; kv.second.earliest_next[0] = kv.second.earliest_next[1] = 0; }
+    for (auto &kv : ledger) { for (auto &r : kv.second.rc) { r.inflight = false; r.awaiting_mark = false; } kv.second.earliest_next[0] = kv.second.earliest_next[1] = 0; }
     // which un-fsynced data was dropped is visible as files whose content changed; for the bounce exemption any loss counts
     data_lost = true;
     // re-read the ledger against the post-crash image: marks that were lost are no longer marks
@@ -415,7 +445,7 @@ struct DaemonScenario : Scenario {
     if (M("C02")) check_qstate(w, "after a machine crash");
   }
   void on_proc_exit(World &w, Proc &p) override {
-    if (p.vpid == sendpid) { if ((p.status & 127) == SIGKILL) { daemon_killed = true; history += " KILL-SEND"; for (auto &kv : ledger) { for (auto &r : kv.second.rc) r.inflight = false; kv.second.earliest_next[0] = kv.second.earliest_next[1] = 0; } inflight.clear(); w.counters["daemon_kills"]++; } }
+    if (p.vpid == sendpid) { if ((p.status & 127) == SIGKILL) { daemon_killed = true; history += " KILL-SEND"; for (auto &kv : ledger) { for (auto &r : kv.second.rc) { r.inflight = false; r.awaiting_mark = false; } kv.second.earliest_next[0] = kv.second.earliest_next[1] = 0; } inflight.clear(); w.counters["daemon_kills"]++; } }
     for (size_t i = 0; i < injectors.size(); i++) if (injectors[i] == p.vpid) { injectors.erase(injectors.begin() + i); break; }
   }
 
@@ -455,7 +485,7 @@ struct DaemonScenario : Scenario {
       start_daemon(w);
       return true;
     }
-    if (!tosend.empty() && injectors.empty()) {
+    if (!tosend.empty() && injectors.empty() && !(inject_mode == "drain" && !(queue_empty(w) && inflight.empty()))) {
       if (inject_mode == "conc") { for (auto &m : tosend) start_injector(w, m); tosend.clear(); }
       else { start_injector(w, tosend.front()); tosend.erase(tosend.begin()); }
       return true;
@@ -470,8 +500,8 @@ struct DaemonScenario : Scenario {
     if (!inflight.empty()) {
       // alternatives: (delivery, verdict); default = oldest delivery succeeds
       struct Ev { size_t idx; char v; };
-      std::vector<Ev> evs; static const char verd[] = {'K', 'Z', 'D', 'X'};
-      size_t lim = std::min<size_t>(inflight.size(), 3);
+      std::vector<Ev> evs; std::string verd = cfg.get("verdicts", "KZDX");
+      size_t lim = std::min<size_t>(inflight.size(), cfg.geti("reorder", 3));
       for (size_t i = 0; i < lim; i++) for (char v : verd) evs.push_back({i, v});
       uint8_t kinds[VK_MAXALT]; int n = 0;
       for (auto &e : evs) { (void) e; kinds[n] = n == 0 ? 0 : BK_ENV; n++; }
@@ -506,7 +536,7 @@ struct DaemonScenario : Scenario {
     Proc *p = proc(w, sendpid); if (!p) return;
     static const int sigs[] = {SIGTERM, SIGALRM, SIGHUP}; static const char *names[] = {"TERM", "ALRM", "HUP"};
     w.raise_sig(*p, sigs[which]); history += std::string(" ") + names[which]; w.counters[std::string("signal_") + names[which]]++;
-    if (which == 0) term_sent = true;
+    if (which == 0) { term_sent = true; for (auto &kv : ledger) for (int c = 0; c < 2; c++) if (kv.second.pass_started[c] && !kv.second.gone && !kv.second.pass_eof[c]) kv.second.term_open_pass[c] = true; }
     if (which == 1) { alarm_since[0] = alarm_since[1] = true; for (auto &kv : ledger) { kv.second.earliest_next[0] = kv.second.earliest_next[1] = 0; } }
   }
   // C16/C15: the daemon must not sleep past its earliest due event known to the ledger
